@@ -58,9 +58,12 @@ fn run(id: &str, tier: Tier, replay: Option<String>) -> i32 {
         "C01" => checks::c01::main(tier, replay),
         "C02" => checks::c02::main(tier, replay),
         "C03" => checks::c03::main(tier, replay),
+        "C04" => checks::c04::main(tier, replay),
+        "C05" => checks::c05::main(tier, replay),
         "C07" => checks::c07::main(tier, replay),
         "C08" => checks::c08::main(tier, replay),
         "C13" => checks::c13::main(tier, replay),
+        "C17" => checks::c17::main(tier, replay),
         _ => {
             eprintln!("unknown property {}", id);
             2
